@@ -890,6 +890,20 @@ fn faults_for(template: &Path, tier: Tier) -> Vec<Fault> {
             v.push(Fault::PlantFile { path: format!("{pd}/{n}/{}", item_file_name(&ChunkRange { start: 0, end: 1 }, 3, 0)), size: 3 });
         }
     }
+    // key-directory-like names that BEGIN with their prefix directory's two characters (anything else is skipped as
+    // misplaced before its name is ever decoded): canonical base64 of 3, 6, 30, 32, 33 and 45 bytes
+    for pd in &prefix_dirs {
+        for total in [4usize, 8, 40, 44, 60] {
+            let name = format!("{pd}{}", "A".repeat(total - pd.len()));
+            v.push(Fault::PlantDir { path: format!("{pd}/{name}") });
+            v.push(Fault::PlantFile { path: format!("{pd}/{name}"), size: 3 });
+            v.push(Fault::PlantFile { path: format!("{pd}/{name}/{}", item_file_name(&ChunkRange { start: 0, end: 1 }, 3, 0)), size: 3 });
+        }
+        // 43 characters + padding: exactly the 32 bytes of a hash and an empty prefix
+        let name = format!("{pd}{}=", "A".repeat(43 - pd.len()));
+        v.push(Fault::PlantDir { path: format!("{pd}/{name}") });
+        v.push(Fault::PlantFile { path: format!("{pd}/{name}/{}", item_file_name(&ChunkRange { start: 0, end: 1 }, 3, 0)), size: 3 });
+    }
     let key_dirs: Vec<String> = dirs.iter().filter(|d| d.matches('/').count() == 1).cloned().collect();
     for kd in &key_dirs {
         let wrong_len = item_file_name(&ChunkRange { start: 0, end: 2 }, 999, 1);
